@@ -165,8 +165,9 @@ def iterate_concrete(eng, v):
     if isinstance(v, Iter):
         if v.consumed:
             return []
+        items = iterate_concrete(eng, v.seq)  # may be refused (symbolic length): the iterator is then NOT consumed yet
         v.consumed = True
-        return iterate_concrete(eng, v.seq)
+        return items
     if isinstance(v, _Zip):
         cols = [iterate_concrete(eng, s) for s in v.seqs]
         return [tuple(t) for t in zip(*cols)]
@@ -182,8 +183,8 @@ def iterate_concrete(eng, v):
 
 
 class _SymRange:
-    def __init__(self, lo, hi):
-        self.lo, self.hi = lo, hi
+    def __init__(self, lo, hi, step=1):
+        self.lo, self.hi, self.step = lo, hi, step  # step: concrete non-zero int
 
 
 class _Zip:
@@ -230,8 +231,16 @@ def as_sequence(eng, v):
         return v.nz(), v.get
     if isinstance(v, _SymRange):
         lo, hi = to_z3(v.lo, "int"), to_z3(v.hi, "int")
-        n = z3.If(hi >= lo, hi - lo, z3.IntVal(0))
-        return z3.simplify(n), lambda k: eng.snum(lo + k.z, "int")
+        st = v.step
+        if st == 1:
+            n = z3.If(hi >= lo, hi - lo, z3.IntVal(0))
+            return z3.simplify(n), lambda k: eng.snum(lo + k.z, "int")
+        # len(range(lo, hi, st)) by CPython's definition (get_len_of_range): ceil((hi - lo) / st) if positive, else 0
+        if st > 0:
+            n = z3.If(hi > lo, (hi - lo - 1) / st + 1, z3.IntVal(0))
+        else:
+            n = z3.If(lo > hi, (lo - hi - 1) / (-st) + 1, z3.IntVal(0))
+        return z3.simplify(n), lambda k: eng.snum(lo + k.z * st, "int")
     if isinstance(v, range):
         if v.step != 1:
             raise Unsupported("range step")
@@ -251,6 +260,12 @@ def as_sequence(eng, v):
         return v.proto["__iter_seq__"](eng, v)
     if isinstance(v, _DictItems) and v.d.items is None:
         return dict_enumeration(eng, v.d)
+    if hasattr(v, "__pyvc_sequence__"):  # extension value that is a (possibly lazy) sequence: (length, getter)
+        return v.__pyvc_sequence__(eng)
+    if isinstance(v, Obj) and "__items__" not in v.fields:  # instance of a repository class that defines __iter__
+        r = eng.find_method(v.cls, "__iter__")
+        if r is not None and r[0] == "func" and eng.func_from_py(r[1], r[2]) is not None:
+            return as_sequence(eng, eng.call(eng.getattr_(v, "__iter__"), [], {}))
     raise Unsupported(f"symbolic iteration over {type(v).__name__}")
 
 
@@ -820,8 +835,22 @@ def comprehension(eng, n, fr, kind):
     gens = n.generators
     if any(g.is_async for g in gens):
         raise Unsupported("async comprehension")
-    sub = Frame(parent=fr, globs=fr.globs, func=fr.func)
     first = eng.ev(gens[0].iter, fr)
+    ghook = getattr(eng, "genexp_hook", None)
+    if ghook is not None and kind == "gen":
+        # contract option `genexp_hook(eng, node, frame, first)`: a generator expression whose elements have side effects
+        # must stay LAZY (CPython evaluates only the first iterable at creation); the hook returns a lazy sequence value
+        # (see pyvc/ext_C19.py: LazySeq) or NotImplemented to fall through to the eager model below
+        r = ghook(eng, n, fr, first)
+        if r is not NotImplemented:
+            return r
+    return comprehension_over(eng, n, fr, kind, first)
+
+
+def comprehension_over(eng, n, fr, kind, first):
+    """the comprehension `n` with its first iterable already evaluated to `first`"""
+    gens = n.generators
+    sub = Frame(parent=fr, globs=fr.globs, func=fr.func)
     try:
         items0 = iterate_concrete(eng, first)
     except Unsupported:
@@ -888,7 +917,9 @@ def _b_range(eng, args, kwargs):
         return _SymRange(0, args[0])
     if len(args) == 2:
         return _SymRange(args[0], args[1])
-    raise Unsupported("symbolic range with step")
+    if len(args) == 3 and isinstance(args[2], int) and not isinstance(args[2], bool) and args[2] != 0:
+        return _SymRange(args[0], args[1], args[2])
+    raise Unsupported("symbolic range with a symbolic step")
 
 
 def _b_isinstance(eng, args, kwargs):
@@ -1285,7 +1316,24 @@ def slice_indices(eng, sl, args, kwargs):
     if sl.step not in (None, 1):
         if all(not isinstance(x, Sym) for x in (sl.start, sl.stop, sl.step, n)):
             return sl.indices(n)
-        raise Unsupported("slice.indices with a step on symbolic data")
+        if isinstance(sl.step, Sym):
+            raise Unsupported("slice.indices with a symbolic step")
+        if sl.step == 0:
+            raise ProgExc(ValueError, "slice step cannot be zero")
+        # concrete step, symbolic bounds / length: PySlice_AdjustIndices
+        st = int(sl.step)
+        nz = to_z3(n, "int")
+        lower, upper = (z3.IntVal(0), nz) if st > 0 else (z3.IntVal(-1), nz - 1)
+
+        def adj2(v, default):
+            if v is None:
+                return default
+            vz = to_z3(v, "int")
+            return z3.If(vz < 0, z3.If(vz + nz < 0, lower, vz + nz), z3.If(vz >= nz, upper, vz))
+
+        lo = eng.snum(adj2(sl.start, upper if st < 0 else lower), "int")
+        hi = eng.snum(adj2(sl.stop, lower if st < 0 else upper), "int")
+        return (lo, hi, st)
     if all(not isinstance(x, Sym) for x in (sl.start, sl.stop, n)):
         return sl.indices(n)
     nz = to_z3(n, "int")
